@@ -135,6 +135,19 @@ def run(ctx):
                         zt, nz = nz, zt
                     flag_sw = (bb, nz, zt, rd)
                     break
+    if flag_sw is None:
+        # the byte itself is switched on: `match rest.split_first() { Some((&0, values)) => .., Some((_, tail)) => .. }`, `match flag { 0 => .. }`
+        for bb in range(nxt.n):
+            t = nxt.term(bb)
+            if t["k"] != "switch" or nxt.is_cleanup(bb) or "0" not in t["vals"] or t.get("dty") not in ("u8", None):
+                continue
+            v = nxt.origin_op(t["discr"], bb, len(nxt.blocks[bb]["stmts"]))
+            if isinstance(v, tuple) and v[0] in ("bin", "discr", "const"):
+                continue
+            rd = cursor.reading(v)
+            if rd is not None and rd["width"] == 1 and len(t["vals"]) == 1:
+                flag_sw = (bb, t["otherwise"], t["tgts"][0], rd)
+                break
     if not ctx.ob("C16.rebind-replaces", flag_sw is not None, "no test of the new-params-bound byte found in the parameter iterator", fn=nxt.path,
                   construct="flag-test", nontrivial=False):
         return
